@@ -331,6 +331,15 @@ def _renames(ck: Checker) -> None:
         keyalts = [norm(z) for z in expand1(prog, fn, key, levels=2)]
         dv = norm(c.args[0]) if c.args else "?"
         ck.require(any(f"{dv}.old.hash_info" in k for k in keyalts), "C08.renames", fn, n, "deletions are filed under deletion.old.hash_info", f"deletion table key is {keyalts}, not the deleted entry's old hash")
+        # every deletion is filed (the table is also the only source of the unmatched deletions yielded at the end)
+        if n.loops:
+            hd = g.nodes[n.loops[-1]]
+            rr = g.reach([d for lab, d in hd.succ if lab == "T"], skip_node=lambda x, n=n: x.id == n.id, skip_edge=lambda a, l, b: l == "exc")
+            ck.require(hd.id not in rr, "C08.renames", fn, n, "every deletion is filed into the table",
+                       "a deletion can be left out of the per-hash table (e.g. entries without a hash are skipped): the table is also what the unmatched deletions are yielded from, so that key disappears from the diff",
+                       witness=g.fmt_path(g.path_to(rr, hd.id)) if hd.id in rr else None, construct=f"{norm(c)[:50]} / every deletion filed")
+        else:
+            ck.fail("C08.renames", fn, n, "the deletion table is not filled in a loop over the deletions")
 
 
 
